@@ -36,7 +36,8 @@ let () = run_lines (fun toks ->
        let o = List.map zs (take (int_of_string ks) os) in
        let (((((mix, v), pr), rr), ck), v2) = Model.int_run (src_of src) (hist_of h) p o r (zs a) in
        grp mix ^ "| " ^ string_of_z v ^ " | " ^ string_of_z pr ^ " | " ^ grp rr ^ "| " ^ grp ck ^ "| " ^ string_of_z v2
-     | _ -> "BAD-LINE")
+       ^ " | " ^ string_of_int (List.length p) ^ " " ^ grp p ^ "| " ^ grp p ^ "| " ^ grp ck ^ "| " ^ string_of_z v
+  | _ -> "BAD-LINE")
   | "rns" :: h :: rest ->
     let (p, r, rest) = parse_sys rest in
     (match rest with
@@ -44,7 +45,8 @@ let () = run_lines (fun toks ->
        let o = List.map zs (take (int_of_string ks) os) in
        let ((((mix, v), rr), ck), v2) = Model.dom_run (hist_of h) p o r (zs a) in
        grp mix ^ "| " ^ string_of_z v ^ " | " ^ grp rr ^ "| " ^ grp ck ^ "| " ^ string_of_z v2
-     | _ -> "BAD-LINE")
+       ^ " | " ^ string_of_int (List.length p) ^ " " ^ grp p ^ "| " ^ grp p ^ "| " ^ grp ck ^ "| " ^ string_of_z v
+  | _ -> "BAD-LINE")
   | "fixed" :: rest ->
     let (p, r, _) = parse_sys rest in
     string_of_z (Model.fixed_RnsToRing p r)
@@ -61,5 +63,6 @@ let () = run_lines (fun toks ->
        let c = List.map zs (take (int_of_string ds + 1) cs) in
        let c = strip_trailing_zeros (List.map (fun x -> Model.Z.modulo x p) c) in
        grp (strip_trailing_zeros (Model.poly_RnsToRing p pts r)) ^ "| " ^ grp (Model.poly_RingToRns p pts c)
-     | _ -> "BAD-LINE")
+  | _ -> "BAD-LINE")
+  | ["skip"] -> "SKIP"
   | _ -> "BAD-LINE")
